@@ -32,8 +32,17 @@ PawnRelevant(c, q) ==
 PawnTable(c, q) ==
   {<<occ, PawnPush(c, q, occ), PawnAtt(c, q) \cap occ>> : occ \in SUBSET PawnRelevant(c, q)}
 
+(* square / rank / file index arithmetic: indices are taken modulo their range (Square::new(64) is a1,      *)
+(* Rank::from_index(8) is the first rank), and the one-step moves of ranks and files wrap                      *)
+ArithRec(q) ==
+  [sqnew |-> [i \in 1..4 |-> (q + 64 * (i - 1)) % 64],                      \* Square::new(q + 64k) for k = 0..3
+   rankfrom |-> [i \in 1..16 |-> (i - 1) % 8], filefrom |-> [i \in 1..16 |-> (i - 1) % 8],
+   rankup |-> (RankOf(q) + 1) % 8, rankdown |-> (RankOf(q) + 7) % 8,
+   fileright |-> (FileOf(q) + 1) % 8, fileleft |-> (FileOf(q) + 7) % 8,
+   make |-> [r \in 1..8 |-> [f \in 1..8 |-> Sq(f - 1, r - 1)]]]
+
 GeomRec(q) ==
-  [s |-> q, name |-> SqName(q), file |-> FileOf(q), rank |-> RankOf(q),
+  [s |-> q, name |-> SqName(q), file |-> FileOf(q), rank |-> RankOf(q), arith |-> ArithRec(q),
    king |-> KingT[q], knight |-> KnightT[q],
    pattw |-> PawnAtt("w", q), pattb |-> PawnAtt("b", q),
    rankset |-> RankSet(RankOf(q)), fileset |-> FileSet(FileOf(q)), adj |-> AdjacentFiles(FileOf(q)),
